@@ -234,7 +234,7 @@ private:
 };
 
 class SoftmaxCrossEntropy : public Operator {
-  PRIMITIV_DECL_DEFAULTS_AND_FORWARD(1, 1);
+  PRIMITIV_DECL_DEFAULTS_AND_FORWARD(2, 1);
 public:
   explicit SoftmaxCrossEntropy(std::uint32_t dim) : dim_(dim) {}
 private:
